@@ -83,9 +83,8 @@ EXPORT int fprintf_s(FILE *restrict stream, const char *restrict fmt, ...) {
                                            ESNULLP);
         return -(ESNULLP);
     }
-    if (unlikely((p = strnstr(fmt, "%n", RSIZE_MAX_STR)))) {
-        /* at the beginning or if inside, not %%n */
-        if ((p - fmt == 0) || *(p - 1) != '%') {
+    if (unlikely((p = safec_find_percent_n(fmt)))) {
+        { /* any n conversion, whatever flags, width or length modifier */
             invoke_safe_str_constraint_handler("fprintf_s: illegal %n", NULL,
                                                EINVAL);
             return -(EINVAL);
